@@ -220,13 +220,30 @@ def model_one(request, timeout=30):
     return {"ok": False, "error": "model produced no answer " + p.stderr[-200:]}
 
 
-def model_batch_parallel(requests, chunks=14, timeout=30):
-    """every request in its own process (5 ms start-up) with a per-request time-out, 14 at a time"""
+def _model_group(group, timeout):
+    """a few requests through one model process; if the group does not finish in time every request is retried alone
+    (so one exploding request cannot take its neighbours down)"""
+    if len(group) == 1:
+        return [model_one(group[0], timeout)]
+    try:
+        out = model_batch(group, timeout=timeout)
+        if all(isinstance(a, dict) and not str(a.get("error", "")).startswith("model produced no answer") for a in out):
+            return out
+    except subprocess.TimeoutExpired:
+        pass
+    return [model_one(r, timeout) for r in group]
+
+
+def model_batch_parallel(requests, chunks=14, timeout=30, group=6):
+    """requests in small groups per model process, 14 processes at a time, with a time-out per group and an
+    individual retry on time-out"""
     if not requests:
         return []
     from concurrent.futures import ThreadPoolExecutor
+    groups = [requests[i:i + group] for i in range(0, len(requests), group)]
     with ThreadPoolExecutor(max_workers=chunks) as ex:
-        return list(ex.map(lambda r: model_one(r, timeout), requests))
+        res = list(ex.map(lambda g: _model_group(g, timeout), groups))
+    return [a for g in res for a in g]
 
 
 # ------------------------------------------------------------------------------------------------
